@@ -358,6 +358,8 @@ impl ViCut {
 		let was_normal = self.mode.report_mode() == ModeReport::Normal;
 		self.mode = Box::new(ViNormal::new());
 		self.current_buffer().stop_selecting();
+		// Where the closed insert session began is of no concern to the next command (it bounds ctrl-w only)
+		self.current_buffer().clear_insert_mode_start_pos();
 		if should_go_back_one {
 			let new_pos = self.current_buffer().cursor.ret_sub(1);
 			// Leaving insert mode moves back one, but never crosses line boundaries
